@@ -33,6 +33,61 @@ fn main() {
             }
             0
         }
+        "shape-cov" => {
+            // developer tool: production shapes (node kind + kinds of its non-trivia children, runs collapsed)
+            // of the real files that neither GRAM nor SEM programs ever produce
+            use std::collections::{BTreeMap, BTreeSet};
+            fn shapes(text: &str, into: &mut BTreeMap<String, String>) {
+                let parse = syntax::parse(text);
+                for n in parse.syntax_node().descendants() {
+                    let mut kids: Vec<String> = Vec::new();
+                    for c in n.children_with_tokens() {
+                        let k = format!("{:?}", c.kind());
+                        if c.kind().is_trivia() {
+                            continue;
+                        }
+                        if kids.last() != Some(&k) {
+                            kids.push(k);
+                        }
+                    }
+                    let key = format!("{:?}({})", n.kind(), kids.join(" "));
+                    into.entry(key).or_insert_with(|| n.text().to_string().chars().take(70).collect());
+                }
+            }
+            let n: usize = args.get(2).and_then(|s| s.parse().ok()).unwrap_or(3000);
+            let mut rng = fw::Rng::new(7);
+            let mut g: BTreeMap<String, String> = BTreeMap::new();
+            for _ in 0..n {
+                let (_, text) = gen::gram::program(&mut rng, gen::gram::GramOpts { budget: 80, ..Default::default() });
+                shapes(&text, &mut g);
+            }
+            let mut sm: BTreeMap<String, String> = BTreeMap::new();
+            for _ in 0..n {
+                for (_, t) in gen::sem::program(&mut rng, gen::sem::Opts::Clean).files {
+                    shapes(&t, &mut sm);
+                }
+            }
+            let mut real: BTreeMap<String, String> = BTreeMap::new();
+            for (_, t) in gen::corpus::llvm().iter().chain(gen::corpus::seeds().iter()) {
+                shapes(t, &mut real);
+            }
+            let gk: BTreeSet<&String> = g.keys().collect();
+            let sk: BTreeSet<&String> = sm.keys().collect();
+            println!("shapes: real {} gram {} sem {}", real.len(), g.len(), sm.len());
+            for (k, ex) in &real {
+                if k.contains("Error") {
+                    continue;
+                }
+                let tag = match (gk.contains(k), sk.contains(k)) {
+                    (false, false) => "NEITHER",
+                    (false, true) => "not-gram",
+                    (true, false) => "not-sem",
+                    _ => continue,
+                };
+                println!("{tag}\t{k}\t{:?}", ex);
+            }
+            0
+        }
         "sem" if args.len() >= 4 => {
             // developer/audit tool: write SEM program <seed> into directory args[3]
             let seed: u64 = args[2].parse().unwrap_or(1);
